@@ -107,9 +107,18 @@ CLAIMS = {
  'C17': dict(engine='floor', ref='DESIGN.md 3.2, 6', note=FLOOR_NOTE,
    text='Observer C17 keeps the sequence of leaf parts entering and leaving each batcher and checks sequence preservation, exact batch sizes, acceptance only when empty, and leaf counting in buffers and sinks; checked by TLC on the closed specification and on recorded runs with single parts and batches of sizes 0..3 through one or two batchers, buffers and processors.',
    technique='TLA+ closed spec Floor.tla model-checked with TLC over configuration families (all tie-breaks) + TLC trace validation of real runs against the property observers FloorObs.tla (sampled TLC behaviours replayed on the code with forced dispatch order)'),
+ 'C14': dict(engine='equiv', ref='DESIGN.md 6 (C14)',
+   text='Design level: TLC model-checks SplitMC (two copies of the kernel specification with a fixed tie-break choice function: '
+        'run(a);run(b) and run(a+b) execute the same actions at the same times and leave the same events). Code level: for every '
+        'configuration of the tie-dependent floor families a same-seed pair (second run after advancing the global asset-id counter) '
+        'and a split-run pair (tie-break choices held fixed, split at one or two grid points) are recorded step by step with the '
+        'complete projected state and TLC (Equiv.tla) checks that paired steps are equal; simulate_multiple_times is run with 0, 1, 2, 4 '
+        'and default process counts and every returned system is compared with the in-process run of its index.',
+   technique='TLA+ two-copy kernel spec model-checked with TLC + TLC comparison of paired recorded runs of the real package'),
 }
 
 ENGINES = {
+ 'equiv': dict(name='equiv', path='harness/p_equiv.py', kind_free_text='SplitMC.tla (design) / Equiv.tla (paired traces); harness/p_equiv.py equiv_models.py'),
  'floor': dict(name='floor', path='harness/p_floor.py', kind_free_text='Floor.tla (closed spec) / FloorMC.tla + generated FloorCfgs / FloorObs.tla (property observers) / FloorTrace.tla; harness/floor_cfg.py floor_build.py floor_tracer.py floor_mc.py'),
  'lifecycle': dict(name='lifecycle', path='harness/p_lifecycle.py', kind_free_text='Lifecycle.tla / LifecycleMC.tla / LifecycleTrace.tla; harness/component.py; driver harness/lifecycle_driver.py'),
  'sched': dict(name='sched', path='harness/p_sched.py', kind_free_text='Sched.tla / SchedMC.tla / SchedTrace.tla; harness/component.py; driver harness/sched_driver.py'),
